@@ -196,6 +196,55 @@ example (w : ℕ → ℚ) (hw : ∀ j, j < 3 → matTVec Inst.M 3 w j = 1) : ∀
     interval_cases i <;> interval_cases j <;> simp [*]
   · simpa [Inst.hnb] using collocation_rows_sum_one Inst.S Inst.hadm Inst.tmono Inst.hcell Inst.xs Inst.M Inst.hM
 
+/-- circulance of the *model's* collocation matrix on a periodic space with uniform knots, interpolation points `x₀ + i·h`
+    (what `greville` yields there), given where the span search lands -/
+theorem uniform_periodic_collocation_circulant (S : Space K) (a h x0 : K) (hper : S.periodic = true)
+    (ht : ∀ i, S.t i = a + (i : K) * h) (s0 : ℕ) (hs0 : S.degree ≤ s0) (hn : 0 < S.nbasis)
+    (hspan : ∀ i, i < S.nbasis → findSpan S.t S.nk S.degree (x0 + (i : K) * h) = some (s0 + i))
+    (M : ℕ → ℕ → K) (hM : ∀ i, i < S.nbasis → collocationMatrix S (fun i => x0 + (i : K) * h) i = some (M i)) :
+    ∀ i j, i < S.nbasis → j < S.nbasis → M ((i + 1) % S.nbasis) ((j + 1) % S.nbasis) = M i j := by
+  apply uniform_periodic_circulant a h x0 S.t ht S.nbasis S.degree s0 hn hs0 M
+  intro i hi
+  have := hM i hi
+  unfold collocationMatrix collocRow at this
+  rw [hspan i hi, hper] at this
+  simp only [Option.map_some, Option.some.injEq] at this
+  exact this.symm
+
+/-- **uniform_periodic_equal_weights** for the model up to unisolvence: uniform knots with `h > 0`, points `x₀ + i·h`, known
+    spans, `Mᵀ` injective, constant right-hand side `Ic` with `n·Ic = L` ⇒ every weight is `L/n` -/
+theorem uniform_periodic_equal_weights_model [IsStrictOrderedRing K] (S : Space K) (hadm : S.Admissible) (a h x0 : K)
+    (hper : S.periodic = true) (hh : 0 < h) (ht : ∀ i, S.t i = a + (i : K) * h) (s0 : ℕ) (hs0 : S.degree ≤ s0)
+    (hspan : ∀ i, i < S.nbasis → findSpan S.t S.nk S.degree (x0 + (i : K) * h) = some (s0 + i))
+    (M : ℕ → ℕ → K) (hM : ∀ i, i < S.nbasis → collocationMatrix S (fun i => x0 + (i : K) * h) i = some (M i))
+    (hinj : ∀ v : ℕ → K, (∀ j, j < S.nbasis → matTVec M S.nbasis v j = 0) → ∀ i, i < S.nbasis → v i = 0)
+    (w : ℕ → K) (Ic L : K) (hw : ∀ j, j < S.nbasis → matTVec M S.nbasis w j = Ic) (hI : (S.nbasis : K) * Ic = L) :
+    ∀ i, i < S.nbasis → w i = L / (S.nbasis : K) := by
+  have hn : 0 < S.nbasis := by
+    have := hadm.2.1
+    simp only [Space.nbasis, Space.ncells, hper, if_true]; omega
+  have hmono : Monotone S.t := by
+    intro i j hij
+    rw [ht, ht]
+    have : (i : K) ≤ (j : K) := by exact_mod_cast hij
+    nlinarith
+  have hcell : ∀ s, S.degree ≤ s → s + S.degree + 2 ≤ S.nk → S.t s < S.t (s + 1) := by
+    intro s _ _
+    rw [ht, ht]; push_cast; linarith
+  exact uniform_periodic_equal_weights_partial S.nbasis hn M w Ic L
+    (uniform_periodic_collocation_circulant S a h x0 hper ht s0 hs0 hn hspan M hM) hinj hw
+    (collocation_rows_sum_one S hadm hmono hcell _ M hM) hI (by exact_mod_cast (Nat.pos_iff_ne_zero.mp hn))
+
+/-- instance `Interp.Inst` (`a = -2`, `h = 1`, `x₀ = 1/2`, `s₀ = 2`): every hypothesis incl. unisolvence holds; the weights are `3/3` -/
+example (w : ℕ → ℚ) (hw : ∀ j, j < Inst.S.nbasis → matTVec Inst.M Inst.S.nbasis w j = 1) :
+    ∀ i, i < Inst.S.nbasis → w i = 3 / (Inst.S.nbasis : ℚ) := by
+  have e : (fun i : ℕ => (1/2 : ℚ) + (i : ℚ) * 1) = Inst.xs := by funext i; simp [Inst.xs]; ring
+  refine uniform_periodic_equal_weights_model Inst.S Inst.hadm (-2) 1 (1/2) rfl one_pos (fun i => by simp [Inst.S]; ring) 2
+    (by decide) (fun i hi => ?_) Inst.M (by rw [e]; exact Inst.hM) (by rw [Inst.hnb]; exact Inst.hinjT) w 1 3 hw
+    (by rw [Inst.hnb]; norm_num)
+  rw [Inst.hnb] at hi
+  interval_cases i <;> norm_num [findSpan, findSpanLoop, Inst.S]
+
 /-! ### the degree-raising expression is the integral (statement only) -/
 
 open Polynomial in
